@@ -113,6 +113,7 @@ mutant("m14p", "C14", "asmjit/arm/a64assembler.cpp", "        if (shift_type == 
 mutant("m14q", "C14", "asmjit/core/assembler.cpp", "    if (ASMJIT_UNLIKELY(delta < -(limit >> 1) || delta >= limit)) {", "    if (ASMJIT_UNLIKELY(delta < -(limit >> 1) - limit || delta >= 2 * limit)) {", "embed_label_delta accepts distances up to twice the field range (truncated)")
 mutant("m16j", "C16", "asmjit/core/builder.cpp", "  dst->reset_inline_comment();\n\n  return err;", "  return err;", "revert fix: serialize_to() leaves the last node's inline comment on the destination")
 mutant("m18j", "C18", "asmjit/core/string.cpp", "  if (self_offset != SIZE_MAX) {\n    str = data() + self_offset;\n  }\n", "", "revert fix: a string appended to itself is read from the released buffer")
+mutant("m04g", "C04", "asmjit/core/codeholder.cpp", "      err = make_error(Error::kInvalidDisplacement);\n    }\n\n    it.next();", "    }\n\n    it.next();", "revert fix: an unencodable cross-section displacement is not reported")
 
 def run(cmd, env=None, timeout=3600):
     e = dict(os.environ); e.update(env or {})
